@@ -6,7 +6,8 @@
    and its set semantics.  Every link is a theorem; nothing is assumed about any stage. *)
 From RX Require Import Base.Prelude Base.InvList Tables.Consts Model.Case Model.Op Model.Engine Model.Matcher
      Model.Compiler Model.Api Spec.Syntax Spec.Sem Spec.Parse Proofs.EngineFacts Proofs.MatcherFacts Proofs.LeafFacts
-     Proofs.SmallFacts Proofs.LiteralFacts Proofs.LowerFacts Proofs.PlainPattern.
+     Proofs.SmallFacts Proofs.LiteralFacts Proofs.LowerFacts Proofs.PlainPattern Spec.Repl Proofs.ReplProof Proofs.ReplaceFacts
+     Proofs.ScanFacts Proofs.LiteralApi.
 
 (* ---------- the specification's parser on an ordinary pattern ---------- *)
 Lemma p_quant_none c t : c <> 63%N -> c <> 42%N -> c <> 43%N -> c <> 123%N -> p_quant (c :: t) = PV None (c :: t).
@@ -157,3 +158,44 @@ Example ordinary_e2e_runs :
   | _ => Err ESyntax
   end = Ok true.
 Proof. vm_compute. reflexivity. Qed.
+
+(* replace_all on an ordinary pattern, from the strings: the replacement grammar decides - a valid
+   replacement gives the input with every match the scan visits replaced by the rendering of its
+   items ($0 the match; there are no other groups), an invalid one makes the call fail as soon as
+   there is a match.  No hypothesis about parser, matcher or scan loop. *)
+Theorem ordinary_replace_end_to_end xpath pat fls input repl :
+  forallb ordinary pat = true -> pat <> [] -> (N.of_nat (length pat) <= umax)%N ->
+  existsb (N.eqb 59) fls = false ->
+  match spec_flags xpath fls with
+  | Valid sf =>
+      s_q sf = false -> s_x sf = false ->
+      exists re, regex_new false xpath pat fls = Ok re
+        /\ match parse_repl 0 repl with
+           | PItems its => replace_all re input repl
+                           = Ok (rep_out (matches (r_prog re) input) 0 input its (length input + 2) 0 st0)
+           | PInvalid => forall s', 0 < length input -> matches (r_prog re) input 0 st0 = MTrue s' ->
+                                    replace_all re input repl = Err EInvalidRepl
+           | PFuel => False
+           end
+  | _ => True
+  end.
+Proof.
+  intros Ho Hne Hfit Hsep. pose proof (parse_flags_spec xpath fls Hsep) as PF. unfold regex_new.
+  destruct (parse_flags xpath fls) as [fl|e| |] eqn:Efl; destruct (spec_flags xpath fls) as [sf| |] eqn:Esf;
+    try contradiction; try exact I; try (destruct e; contradiction).
+  destruct PF as [(A1 & A2 & A3 & A4 & A5) Hx]. intros Hq Hws.
+  cbn [rbind]. rewrite (compile_ordinary false fl pat) by congruence. cbn [rbind].
+  set (prog := mk_program pat (OSeq [OAtom pat; OEnd]) 1 (f_case fl) (f_multi fl) false false).
+  pose proof (literal_matches_spec pat (f_case fl) (f_multi fl) false [] Hfit 0 st0 (le_n 0) eq_refl) as M0.
+  fold prog in M0.
+  destruct (matches prog [] 0 st0) as [s0|s0| |k0] eqn:E0; try contradiction.
+  { exfalso. destruct M0 as (k & _ & _ & Hocc & _). unfold occurs_at in Hocc. apply andb_true_iff in Hocc as [H1 _].
+    apply Nat.leb_le in H1. cbn [length] in H1. destruct pat; [contradiction|cbn in H1; lia]. }
+  cbn [mres_bool rbind]. eexists. split; [reflexivity|].
+  unfold replace_all, replace, replace_gen. cbn [r_nullable r_prog p_literal p_maxparens prog mk_program].
+  pose proof (parse_repl_total repl 0) as Tot.
+  destruct (parse_repl 0 repl) as [its| |] eqn:Ep.
+  - apply (literal_replace_valid pat (f_case fl) (f_multi fl) false input Hfit Hne repl its st0 eq_refl Ep).
+  - intros s' Hn Hm. apply (literal_replace_invalid pat (f_case fl) (f_multi fl) false input Hfit Hne repl st0 s' eq_refl Ep Hn Hm).
+  - apply Tot. reflexivity.
+Qed.
